@@ -43,6 +43,7 @@ def directed(rng: random.Random) -> dict:
                        "mixed_immediate_and_deferred", "splice_in_nested_scope", "undefined_macro_nested", "macro_and_scope_same_name",
                        "argument_names_later_nearer_label", "named_scope_in_body", "many_applications", "block_declares_name_used_by_body", "block_expanded_several_times"])
     expect_reject = False
+    expect_bytes = None
     if kind == "capture_eager":
         body += [{"k": "macro", "n": "macA", "ps": ["pa", "pb"], "b": [db(E("pa"), E("pb"))]},
                  {"k": "assign", "n": "pa", "e": E(10)}, {"k": "assign", "n": "pb", "e": E(20)},
@@ -63,7 +64,13 @@ def directed(rng: random.Random) -> dict:
             {"k": "for", "v": "itM", "a": E(0), "b": E("pn"), "body": [db(E("itM"))]},
             {"k": "assign", "n": "cnM", "e": E("pn", "+", 1)}, db(E("cnM"))]},
             {"k": "call", "n": "macM", "as": [E(rng.choice([0, 1, 3])), E("fwdM")]},
-            {"k": "call", "n": "macM", "as": [E(2), E("fwdM", "+", 1)]}, {"k": "label", "n": "fwdM"}, db(0xEE)]
+            {"k": "call", "n": "macM", "as": [E(2), E("fwdM", "+", 1)]},
+            # the same with the label argument first: the plain arguments after it are as immediate as before it
+            {"k": "macro", "n": "macN", "ps": ["pl", "pn", "pm"], "b": [
+                {"k": "if", "c": E("pn", "&", 1), "t": [db(0xAA)], "e": [db(0x55)]}, db(E("pn", "&", 1)), {"k": "data", "d": "dl", "es": [E("pl")]},
+                {"k": "for", "v": "itN", "a": E(0), "b": E("pm"), "body": [db(E("itN"))]}]},
+            {"k": "call", "n": "macN", "as": [E("fwdM"), E(rng.choice([1, 3, 2])), E(2)]},
+            {"k": "label", "n": "fwdM"}, db(0xEE)]
     elif kind == "splice_in_nested_scope":
         where = rng.choice(["for", "block", "scope", "if", "inner_call"])
         sp = {"k": "splice", "n": "pcode"}
@@ -148,8 +155,10 @@ def directed(rng: random.Random) -> dict:
                  {"k": "macro", "n": "macS", "ps": ["pa"], "b": [{"k": "ins", "m": "jmp", "shape": "dir", "sz": "w", "e": E("done")}, db(E("pa")), {"k": "label", "n": "done"}]},
                  {"k": "call", "n": "macS", "as": [E(1)]}, {"k": "call", "n": "macS", "as": [E(2)]}, {"k": "data", "d": "dw", "es": [E("done")]}]
     elif kind == "recursion":
+        depth = rng.choice([0, 1, 3, 6, 40, 130, 150])
         body += [{"k": "macro", "n": "macR", "ps": ["pn"], "b": [db(E("pn")), {"k": "if", "c": E("pn"), "t": [{"k": "call", "n": "macR", "as": [E("pn", "-", 1)]}]}]},
-                 {"k": "call", "n": "macR", "as": [E(rng.choice([0, 1, 3, 6]))]}, db(0xEE)]
+                 {"k": "call", "n": "macR", "as": [E(depth)]}, db(0xEE)]
+        expect_bytes = bytes(range(depth, -1, -1)) + b"\xee"
     elif kind == "code_block":
         body += [{"k": "macro", "n": "macB", "ps": ["pa", "pblk"], "b": [db(E("pa")), {"k": "splice", "n": "pblk"}, db(E("pa", "+", 1)), {"k": "splice", "n": "pblk"}]},
                  {"k": "assign", "n": "cnK", "e": E(7)},
@@ -197,7 +206,8 @@ def directed(rng: random.Random) -> dict:
                                                                  {"k": "call", "n": "macI", "as": [E(9), E("inn", "&", 0xFF)]}]},
                  {"k": "assign", "n": "pb", "e": E(0x55)},
                  {"k": "call", "n": "macO", "as": [E("pb")]}, {"k": "call", "n": "macO", "as": [E(3)]}]
-    return {"prog": body, "files": {}, "tables": {}, "rom": "low", "family": "directed:" + kind, "expect_reject": expect_reject}
+    return {"prog": body, "files": {}, "tables": {}, "rom": "low", "family": "directed:" + kind, "expect_reject": expect_reject,
+            "expect_bytes": expect_bytes.hex() if expect_bytes is not None else None}
 
 
 def classify(p: dict) -> str:
@@ -228,6 +238,18 @@ def check_program(res: Res, p: dict) -> None:
         else:
             res.see("reject_kinds", r0.err_kind)
         return
+    if p.get("expect_bytes"):
+        # a recursion that ends by its own condition expands completely: one body per level, however many levels the program asks for
+        res.count("recursions_judged_directly")
+        want = bytes.fromhex(p["expect_bytes"])
+        if not r0.ok:
+            res.case(src, True)
+            res.violate("valid-rejected", f"a recursive application that terminates after {len(want) - 2} levels is rejected: {r0.err_kind}: {r0.err_text[:160]}", wit)
+            return
+        if b"".join(bytes(b) for _, b in r0.blocks) != want:
+            res.case(src, True)
+            res.violate("differs-from-inlining", f"recursive application over {len(want) - 2} levels emitted {sum(len(b) for _, b in r0.blocks)} bytes, expected {len(want)} (one body per level)", wit)
+            return
     try:
         consts = set()
         twin, tstats = inline_macros(p["prog"], consts)
